@@ -425,7 +425,9 @@ def obligations(tier):
     mb = [dict(labels=LABELS, rows=[0, 1, 0, 2], t=1, gorders=[None, ["tA", "tB", "tC"], ["tC", "tZ", "tB", "tA"]], perms=[[3, 2, 1, 0]]),
           dict(labels=LABELS, rows=[2, 0, 0], t=1, gorders=[["tB", "tA", "tC"]], perms=[[1, 2, 0]]),
           dict(labels=LABELS, rows=[1, 0, 1, 0], t=2, gorders=[None, ["tA", "tB"]], perms=[[2, 3, 0, 1]]),
-          dict(labels=LABELS, rows=[0, 1, 2, 1], t=1, grpcol=[7, 3, 5], gorders=[None], perms=[[1, 0, 3, 2]])]
+          dict(labels=LABELS, rows=[0, 1, 2, 1], t=1, grpcol=[7, 3, 5], gorders=[None], perms=[[1, 0, 3, 2]]),
+          # a genotype matrix that lists a phenotyped taxon more than once (a parent selected twice)
+          dict(labels=LABELS, rows=[1, 0, 1], t=1, gorders=[["tA", "tB", "tA", "tZ", "tB"]], perms=[[2, 1, 0]])]
     if tier == "thorough":
         mb += [dict(labels=LABELS, rows=[0, 1, 0, 2, 1, 0], t=1, gorders=[None, ["tC", "tA", "tB"]], perms=[[5, 4, 3, 2, 1, 0], [1, 0, 3, 2, 5, 4]]),
                dict(labels=LABELS, rows=[2, 2, 1], t=2, gorders=[["tA", "tZ", "tC"]], perms=[[2, 0, 1]]),
